@@ -5,7 +5,7 @@
    Totality of the whole grammar stage is decided by the search.  Proofs in Proofs/Totality.v. *)
 Require Import BB.Base.Str BB.Base.Xml BB.Model.PreParse BB.Model.PreParseSpec BB.Model.PegSyntax BB.Model.Peg.
 Require Import BB.Model.Types BB.Model.XmlGen BB.Model.Convert BB.Gen.Grammar.
-Require Import BB.Proofs.Totality.
+Require Import BB.Base.Dict BB.Proofs.Totality BB.Proofs.PegEscape BB.Proofs.EscapeLossless BB.Proofs.PegPlain BB.Proofs.PegLine BB.Proofs.LineRule BB.Proofs.PlainLine.
 
 Theorem C01_pre_parse_total : forall size s, alphabet_ok s = true -> exists o, pre_parse size s = Some o.
 Proof. exact pre_parse_total. Qed.
@@ -16,6 +16,28 @@ Theorem C01_inline_never_fails : forall f c rest off,
   run akn_peg (S (S (S (S f)))) (Ref (of_string "inline")) (c :: rest) off <> Fail.
 Proof. exact inline_never_fails. Qed.
 Print Assumptions C01_inline_never_fails.
+
+(* "Text the parser does not understand is kept as plain paragraphs": a line that starts with none of the block
+   keywords (the FIRST literals of every block rule of the regenerated grammar, nor P followed by a space, a dot or a
+   brace), holds no backslash and no doubled inline marker (two stars, slashes, underscores or braces) is accepted by hier_block_element - through the fallback
+   rule line - up to its line end, and to_dict turns it into ONE p whose text children spell exactly the line.
+   For every such line, every context (pre, rest) and any sufficient fuel. *)
+Theorem C01_unrecognised_line_is_a_paragraph : forall s pre rest f f',
+  s <> [] -> Forall okc s -> Forall (fun c => c <> EscapeLossless.BS) s -> has_double s = false ->
+  none_starts block_lits (s ++ NL :: rest) = true -> p_safe (s ++ NL :: rest) = true -> no_ctl_start s = true ->
+  exists rest' off' tree ds,
+    run akn_peg (26 + f) (Ref (of_string "hier_block_element")) (s ++ NL :: rest) (len_N pre) = Ok rest' off' tree
+    /\ to_dict (pre ++ s ++ NL :: rest) (2 + f') tree
+       = OkR (DNode (Types.S_ "content") (Types.S_ "p") None None None None None None (Some ds))
+    /\ Forall is_dtext ds /\ concat (map dval ds) = s.
+Proof. exact plain_line_is_paragraph. Qed.
+Print Assumptions C01_unrecognised_line_is_a_paragraph.
+
+(* non-vacuity: a line with a stray star, braces and a word that merely resembles a keyword *)
+Example C01_plain_line_example :
+  let s := of_string "Partly * cloudy {x} SECtion 2/3" in
+  has_double s = false /\ none_starts block_lits (s ++ [NL]) = true /\ p_safe (s ++ [NL]) = true /\ no_ctl_start s = true.
+Proof. vm_compute. repeat split. Qed.
 
 (* known finding F1 *)
 Theorem C01_refuted_attachment_keyword_with_junk :
